@@ -273,3 +273,69 @@ CHECKS.update({
 })
 
 NOT_YET = {}
+
+# Coverage added after the third to fifth rounds of seeded changes (DESIGN.md
+# section 5, "Added after ..."); appended to the claim text of each property.
+ADDED = {
+    'C01': 'Also: start-up on a stored state listing one instance under two '
+           'servers (real restore_placements) and a rewritten manifest size '
+           're-evaluated by an apps event, on the real Master / Loader.',
+    'C02': 'Also: two pending instances of the probe\'s shape with independent '
+           'demands ahead of it; probes that need an identity (after a holder '
+           'lost its server to the loader and was deleted).',
+    'C03': 'Also: master level - an allocations event adds / removes a trait or '
+           'moves the allocation while instances are queued or placed '
+           '(required traits and partition read from the stored '
+           'configuration, never from the model).',
+    'C04': 'Also: the master\'s cell event (real Loader.load_cell), servers '
+           'leaving / replaced under placed instances, instances of one '
+           'affinity that declare different limit values; limits taken from '
+           'the spec.',
+    'C05': 'Also: server removal combined with instance removal or a group '
+           'shrink in one batch of events.',
+    'C06': 'Also: re-assignments between allocations before the cycle, tenant '
+           'shape with two ranked sub-allocations.',
+    'C07': 'Also: leased instances with re-assigned reboot dates, frozen / '
+           'down racks above healthy servers, stale unschedule requests.',
+    'C08': 'Also: several cycles with events in between (unschedule requests '
+           'tracked by the harness); master level - a server that fails, '
+           'returns (plain / re-registered / during fail-over) and fails '
+           'again, retention clock kept by the harness.',
+    'C09': 'Also: an apps event racing with the unscheduling of the instance '
+           'it names (both orders).',
+    'C11': 'Also: traits registered by servers on the fly, partitions and '
+           'allocation traits, a server put on the blackout list between the '
+           'two masters.',
+    'C12': 'Also: a cache file that vanishes between the listing and the '
+           'unlink of the synchronisation (concurrent actor).',
+    'C13': 'Also: delete + create events of a re-placed instance delivered '
+           'after the new file exists; no known findings are masked any more '
+           '(the four defects of _synchronize were repaired in /repo).',
+    'C14': 'Also: the treadmill root behind a deeper symbolic link; garbage '
+           'collection right after / concurrently with a live owner\'s create '
+           '(interleaving point symbolic).',
+    'C15': 'Also: ZooKeeper payloads (dictionaries and lists through zkutils '
+           'put / create / update / ensure_exists and get*) over a bounded '
+           'grammar of shapes and special leaves - bounded exhaustive, the '
+           'codec itself is C code the engine can only realise; LDAP argument '
+           'vectors with repeated tokens.',
+    'C16': 'Also: finish retried after the released address went to another '
+           'container; a transient failure of one IP-set removal (index '
+           'symbolic) followed by a second finish.',
+    'C17': 'Also: registrations removed behind the service\'s back, a '
+           'lingering older session of the same host (identical payloads).',
+    'C18': 'Also: instances both scheduled and finished; two archiver passes '
+           'with a record rewritten in between (modules re-executed per '
+           'path).',
+    'C19': 'Also: the public entry points API().reservation.create / update '
+           'with real jsonschema validation on fake admin objects (magnitudes '
+           'are solver choices rendered as schema-valid strings, incl. K '
+           'sizes that are not whole megabytes).',
+    'C20': 'Also: the real _run_sync with its ZooKeeper watch callbacks - a '
+           'monitor re-configured while the process runs (token bucket of the '
+           'new target over three evaluations at symbolic instants), '
+           'scale-down through the real masterapi.update_appmonitor.',
+}
+for _k, _v in ADDED.items():
+    if _k in CHECKS:
+        CHECKS[_k] = dict(CHECKS[_k], text=CHECKS[_k]['text'] + ' ' + _v)
